@@ -249,18 +249,26 @@ func c19(c *Ctx) {
 		r.Check(ok, "C19.R3", "arg.SprintV renders through fmt only", p.Pos(sv.Pos()), "no direct user-method calls, no writes, no panics", "the log renderer is not log-only: "+lc.why[sv])
 		// nil pointer / nil interface values are rendered without touching them
 		okNil := false
-		eachInstr(sv, func(i ssa.Instruction) {
-			if iff, ok := i.(*ssa.If); ok {
-				if cl, ok := iff.Cond.(*ssa.Call); ok {
-					if cal := staticCallee(cl.Common()); cal != nil && strings.Contains(strings.ToLower(cal.Name()), "zero") {
-						ks := kindsInto(iff.Block())
-						if ks[20] && ks[22] {
-							okNil = true
+		rfns := []*ssa.Function{sv}
+		for f := range p.staticReach(sv) {
+			if f != sv && relPkg(f) == "arg" && f.Blocks != nil {
+				rfns = append(rfns, f)
+			}
+		}
+		for _, rf := range rfns {
+			eachInstr(rf, func(i ssa.Instruction) {
+				if iff, ok := i.(*ssa.If); ok {
+					if cl, ok := iff.Cond.(*ssa.Call); ok {
+						if cal := staticCallee(cl.Common()); isNilPredicate(cal) {
+							ks := kindsInto(iff.Block())
+							if ks[20] && ks[22] {
+								okNil = true
+							}
 						}
 					}
 				}
-			}
-		})
+			})
+		}
 		r.Check(okNil, "C19.R3", "arg.SprintV guards nil pointers/interfaces", p.Pos(sv.Pos()), "Interface/Ptr kinds tested for zero before Interface()", "the renderer no longer special-cases nil pointer / nil interface values before calling Interface()")
 	} else {
 		r.Und("C19.R3", "arg.SprintV", "", "renderer not found")
